@@ -46,7 +46,7 @@ DATETIMES_EXT = [_dt(DATES_EXT[0]), _dt(DATES_EXT[1], 23, 59, 59, 999999)]
 
 KINDS_BASIC = ["bool", "int", "float", "str", "date", "datetime"]
 KINDS_KEY = ["bool", "int", "float", "str", "lstr", "ustr", "date", "datetime", "obool"]
-NA_CAPABLE = {"tstr", "onum", "omix", "float", "str", "lstr", "ustr", "date", "datetime", "obool", "obj", "ostr", "timedelta", "float32", "oint"}
+NA_CAPABLE = {"longdouble", "tstr", "onum", "omix", "float", "str", "lstr", "ustr", "date", "datetime", "obool", "obj", "ostr", "timedelta", "float32", "oint"}
 NA_PATTERNS = ["none", "none", "some", "some", "first", "last", "all"]
 
 def pool(rng, kind, hostile=0.25, tags=None):
@@ -113,6 +113,8 @@ def pool(rng, kind, hostile=0.25, tags=None):
         return [True, False]
     if kind == "oint":
         return [2, 10, 100, 9, -5, 0, 33]        # object column of ints: value order differs from the order of str(value)
+    if kind == "longdouble":
+        return [(1.0, 0), (1.0, 1), (1.0, 2), (2.5, 0), (-3.0, 0), (-3.0, 1), (0.5, 0)]
     if kind == "onum":
         return [1, 1.0, 2, 2.5, 2.0, -3, 0, 0.0]      # object column of numbers: equal values that print differently
     if kind == "omix":
@@ -180,6 +182,9 @@ def np_column(kind, values):
     if kind in ("float", "float32"):
         a = np.array([np.nan if v is None else v for v in values], dtype=np.float64)
         return a.astype(np.float32) if kind == "float32" else a
+    if kind == "longdouble":
+        # extended precision: a value is (double, k) meaning double + k * 2**-60 (distinct only beyond double precision)
+        return np.array([np.nan if v is None else np.longdouble(v[0]) + np.longdouble(v[1]) * np.longdouble(2) ** -60 for v in values], dtype=np.longdouble)
     if kind in ("str", "lstr"):
         return np.array(["" if v is None else v for v in values], dtype=di.dtypes.string)
     if kind == "tstr":
@@ -220,6 +225,8 @@ def expected_cells(kind, values):
     for v in values:
         if v is None:
             out.append(canon.NA)
+        elif kind == "longdouble":
+            out.append(canon.canon_obj(np.longdouble(v[0]) + np.longdouble(v[1]) * np.longdouble(2) ** -60))
         elif kind in ("float", "float32", "float_be"):
             out.append(canon.canon_obj(float(np.float32(v)) if kind == "float32" else float(v)))
         else:
